@@ -201,6 +201,38 @@ def run(ctx):
                          "impl-refused": sum(1 for b in ires if b is not True)}}
         ctx.add_eval(len(reqs), 2)
         diffs += bad
+        # 6. ignore at the document level and sessions that hold an earlier result: the model answers the computed side
+        #    conditions of C14_reader_builds_ignore / C14_reader_builds_second_read (True => both reads succeed and shared
+        #    names are the held objects); only the implication is claimed
+        reqs = []
+        for k in range(60 if quick else 1500):
+            S = system(rng, big=(k % 5 == 0))
+            order = gen_pil.shuffled_order(S, rng)
+            text, _ = render_doc(S, rng, order, layout=(k % 2 == 0))
+            reqs.append(("reader_kept_consistent", [text, rng.sample(KINDS, rng.randrange(1, 3))]))
+            reqs.append(("reader_kept_consistent", [text, [rng.choice(["reaction", "resting-macrostate"])]]))
+            reqs.append(("reader_session", [text, text]))                                   # the same document again
+            text2, stmts2 = render_doc(S, rng, gen_pil.shuffled_order(S, rng), layout=False)  # another order
+            reqs.append(("reader_session", [text, text2]))
+            # a part of the system, another concentration, then something new that uses what is held
+            part = [st for _, st in stmts2 if rng.random() < 0.6]
+            part = [(l.split("@")[0] + "@c 7 uM") if ("@" in l and rng.random() < 0.7) else l for l in part]
+            dn = next(iter(S.domains))
+            part += ["length zq%d = 4" % k, "ZQ%d = zq%d %s" % (k, k, dn), "state ZQ%d = [ZQ%d]" % (k, k)]
+            reqs.append(("reader_session", [text, "\n".join(part) + "\n"]))
+        mres, ires = run_model(reqs), run_impl(reqs)
+        bad = [(k, rq, a, b) for k, (rq, a, b) in enumerate(zip(reqs, mres, ires)) if a is True and b is not True]
+        for opn in ("reader_kept_consistent", "reader_session"):
+            idx = [k for k, rq in enumerate(reqs) if rq[0] == opn]
+            ctx.cov["correspondence"]["%s(implication)" % opn] = {
+                "cases": len(idx), "disagreements": sum(1 for (k, _, _, _) in bad if reqs[k][0] == opn),
+                "outcomes": {"model-true": sum(1 for k in idx if mres[k] is True),
+                             "model-false": sum(1 for k in idx if mres[k] is False),
+                             "model-other": sum(1 for k in idx if mres[k] is not True and mres[k] is not False),
+                             "impl-true": sum(1 for k in idx if ires[k] is True),
+                             "impl-other": sum(1 for k in idx if ires[k] is not True)}}
+        ctx.add_eval(len(reqs), 2)
+        diffs += bad
     ctx.cov["phase_s"]["correspond"] = round(_t.time() - t0 - ctx.cov["phase_s"]["prove"], 1)
     t1 = _t.time()
     # the property itself on the implementation (support for the witness search; run on every run)
@@ -270,9 +302,15 @@ PARTIAL = [
     "(Built; for complexes the (sequence, structure) the statement denotes, rd_cplx), the keys of every dictionary are exactly "
     "the declared names, every filed reaction belongs to a reaction statement, `other` is the list of the remaining lines; "
     "consistency is a computation (consistentb) that the op reader_consistent evaluates to True on every generated system.  "
-    "NOT in the assembled statement: sessions that already hold objects, `ignore`, and the sorted `view` of the dictionary (the "
-    "fields are stated on the dictionary and the heap; the whole view is compared with gen_pil.expected on every generated "
-    "system, on the implementation by the oracle and through the model by the correspondence)",
+    "With `ignore`: read_pil(text, ignore) is read_pil of the remaining lines, so the same holds whenever the remaining "
+    "statements are consistent (reader_builds_ignore).  In sessions that hold objects (reader_builds_session): for sessions "
+    "described by statements (e.g. left by earlier reads) and documents whose statements are returned as they are, re-declare "
+    "with the same description (kernel statements may set another concentration) or are new and admissible (session_from): "
+    "never refused, declared names map to the held objects, the session stays described.  NOT proved "
+    "(reader_builds_session_partial): re-declarations that change a sequence (a `length` domain re-declared with a sequence) "
+    "or a rate constant, a complex declared in strand notation re-declared with a concentration, held objects that no "
+    "statement describes (a domain whose complement was released, complexes with string elements), and the sorted `view` of "
+    "the dictionary (compared with gen_pil.expected on every generated system)",
     "grammar_shape_full: every line the PEG interpreter returns on the regenerated PIL grammar satisfies line_okb (the hypothesis "
     "of C14_reader_no_fault / C14_reader_classes / C14_failed_read_keeps_held); not proved: the model op answers BadShape for a "
     "parsed line that violates it, so every document of every correspondence run checks it",
